@@ -26,7 +26,18 @@
 #ifndef C16_NMAX
 #define C16_NMAX 4
 #endif
+#ifdef C16_FIXED_CAP
+/* jobs that replace several callee contracts: a constant capacity (symbolic allocation sizes made the
+   SAT encoding exceed 45 GB); the number of live ranges stays symbolic and loops are still closed by
+   their invariants, not unrolled */
+#define VEC_MAX C16_FIXED_CAP
+#define CAP_OK(v) ((v)->cap == VEC_MAX)
+#define DATA_BYTES(v) (VEC_MAX * sizeof(cov_range))
+#else
 #define VEC_MAX 4096
+#define CAP_OK(v) ((v)->cap <= VEC_MAX)
+#define DATA_BYTES(v) ((v)->cap * sizeof(cov_range))
+#endif
 
 #define RET __CPROVER_return_value
 
@@ -34,8 +45,8 @@ extern uint64_t g_x;
 extern _Bool g_was_member, g_was_overlap, g_was_covered;
 
 /* shape of the representation: pointers valid, len within capacity */
-#define SHAPE(c, room) (__CPROVER_is_fresh((c), sizeof(coverage)) && V(c).cap <= VEC_MAX && \
-   V(c).cap >= (room) && V(c).len <= V(c).cap - (room) && __CPROVER_is_fresh(V(c).data, V(c).cap * sizeof(cov_range)))
+#define SHAPE(c, room) (__CPROVER_is_fresh((c), sizeof(coverage)) && CAP_OK(&V(c)) && \
+   V(c).cap >= (room) && V(c).len <= V(c).cap - (room) && __CPROVER_is_fresh(V(c).data, DATA_BYTES(&V(c))))
 
 #include "specfn.h"
 
@@ -54,6 +65,38 @@ __CPROVER_ensures(__CPROVER_same_object(RET, V(self).data))
 __CPROVER_ensures(__CPROVER_POINTER_OFFSET(RET) <= V(self).len * sizeof(cov_range))
 __CPROVER_ensures(__CPROVER_POINTER_OFFSET(RET) % sizeof(cov_range) == 0)
 __CPROVER_assigns();
+
+/* pointer p designates an element boundary of c's array, at most `upto` elements in */
+#define OFF(p) __CPROVER_POINTER_OFFSET(p)
+#define ESZ sizeof(cov_range)
+#define INARR(c, p, upto) (__CPROVER_same_object((p), V(c).data) && OFF(p) <= (upto) * ESZ && OFF(p) % ESZ == 0)
+#define VSHAPE(v, room) (__CPROVER_is_fresh((v), sizeof(vec_cov_range)) && CAP_OK(v) && (v)->cap >= (room) && \
+   (v)->len <= (v)->cap - (room) && __CPROVER_is_fresh((v)->data, DATA_BYTES(v)))
+#define INV(v, p, upto) (__CPROVER_same_object((p), (v)->data) && OFF(p) <= (upto) * ESZ && OFF(p) % ESZ == 0)
+
+/* the three mutating operations of the vector model, under contract themselves so that add/remove can
+   be verified against them (and they against their own loops) */
+void vec_push_back(vec_cov_range *v, const cov_range *x)
+__CPROVER_requires(VSHAPE(v, 1) && __CPROVER_is_fresh(x, sizeof(cov_range)))
+__CPROVER_ensures(v->len == __CPROVER_old(v->len) + 1)
+__CPROVER_assigns(v->len, __CPROVER_object_whole(v->data));
+
+cov_range *vec_insert(vec_cov_range *v, const cov_range *pos, const cov_range *x)
+__CPROVER_requires(VSHAPE(v, 1) && INV(v, pos, v->len))
+__CPROVER_requires(__CPROVER_is_fresh(x, sizeof(cov_range)))
+__CPROVER_ensures(v->len == __CPROVER_old(v->len) + 1 && INV(v, RET, v->len - 1))
+__CPROVER_assigns(v->len, __CPROVER_object_whole(v->data));
+
+cov_range *vec_erase(vec_cov_range *v, const cov_range *first, const cov_range *last)
+__CPROVER_requires(VSHAPE(v, 0) && INV(v, first, v->len) && INV(v, last, v->len) && OFF(first) <= OFF(last))
+__CPROVER_ensures(v->len == __CPROVER_old(v->len) - (OFF(last) - OFF(first)) / ESZ && RET == first)
+__CPROVER_assigns(v->len, __CPROVER_object_whole(v->data));
+
+void coverage_add(coverage *self, uint64_t start, uint64_t length)
+__CPROVER_requires(SHAPE(self, 1))
+__CPROVER_ensures(V(self).len <= __CPROVER_old(V(self).len) + 1)
+__CPROVER_ensures(length == 0 || V(self).len >= 1)
+__CPROVER_assigns(V(self).len, __CPROVER_object_whole(V(self).data));
 
 _Bool coverage_is_covered(const coverage *self, uint64_t start, uint64_t length)
 __CPROVER_requires(SHAPE(self, 0))
